@@ -113,7 +113,19 @@ def processRecord (lower : String → String) (c : Cache) (i : Info) (r : Rec) (
     else (({ i with name := r.name, key := lower r.name } : Info).setSrvHost server (lower server) priority weight port, true)
   | _ => (i, false)
 
-/-- the loop of `async_update_records`: `updated |= …` -/
+/-- `type(record) is DNSAddress` -/
+def isAddrRec (r : Rec) : Bool :=
+  match r.rdata with
+  | .addr .. => true
+  | _ => false
+
+/-- the order in which the repaired `async_update_records` (D22) walks the list it is handed: the records
+that are not `DNSAddress` objects first, the `DNSAddress` objects last (an SRV that names the host may
+follow the host's addresses in the same response, and the cache does not hold them yet) -/
+def addrLast (recs : List Rec) : List Rec :=
+  recs.filter (fun r => !isAddrRec r) ++ recs.filter isAddrRec
+
+/-- one pass of the loops of `async_update_records`: `updated |= …` -/
 def processAll (lower : String → String) (c : Cache) (now : Int) : Info → List Rec → Info × Bool
   | i, [] => (i, false)
   | i, r :: rs =>
@@ -289,7 +301,7 @@ def step (lower : String → String) (s : Req) : Block → Option (Req × Out)
     match s.phase with
     | .waiting w woken =>
       if decide (s.clock ≤ now) && decide (now ≤ w) then
-        let p := processAll lower c now s.info recs
+        let p := processAll lower c now s.info (addrLast recs)
         some ({ s with info := p.1, clock := now, phase := .waiting w (woken || p.2) }, { woke := p.2 && !woken, info := p.1 })
       else none
     | _ => none
